@@ -9,6 +9,9 @@ RULE = ("the C01-C03 history BFS on List, Map, MultiMap, HashMap, HashSet, PoolL
 def run(ctx):
     cs, bs = c04.all_configs(ctx, False)
     cs = [c for c in cs if not c[1].startswith("Array")]
+    if ctx.tier == "quick":
+        # the depth-bounded sparse-tree configurations stay with C01 and with this check's thorough tier
+        cs = [c for c in cs if " fib " not in c[1]]
     K.run_bfs_configs(ctx, cs)
     cov = K.mc_coverage(ctx, RULE)
     return ctx.finish("model_checking", cov,
